@@ -48,6 +48,7 @@ func runC05(c *Ctx) {
 	c05R8(c)
 	c05R10static(c)
 	c05R11static(c)
+	c05R12(c)
 }
 
 func x5IsInvokeNamed(names ...string) func(ssa.Instruction) bool {
